@@ -28,12 +28,26 @@ Oracles    : implementation only, judged by harness/lib/sqlref.py (plain Python,
                histories  half of the e2e tables are built by a random history (transactions appending 1-4 files, deleting
                           part of a manifest / whole manifests / across manifests, both at once, expiry, aborted transactions,
                           garbage collection, reload); expected rows = rows of the files live by the harness' own list semantics
-               corpus     the hand-confirmed failing inputs (F-C12 NaN pushdown, malformed filter on an empty table)
-Findings   : two defects of the unchanged tree (findings/C12-unchanged-tree.log, findings/C12-replay-*.json), both repaired on
+               textbounds per length boundary (1 ... 4096 characters) a table of single-valued files whose text values have L-1 / L /
+                          L+1 characters closed by a character of every plane (U+10000, an emoji, U+10FFFF, U+FFFF, U+FFFD, DEL, NUL ...),
+                          filled with 1- / 2- / 4-byte characters; every value looked up with == and one more operator
+               corpus     the hand-confirmed failing inputs (F-C12 NaN pushdown, malformed filter on an empty table, a data file
+                          without rows, text as value set / between argument, the flag False)
+             Every table generator also produces data files WITHOUT rows (append_records([]) / append_data([]) commit one), the
+             filter generators columns the table does not have, str / bytes where a value set or a (lo, hi) pair is expected,
+             and ('is_null', False); the long-text domains contain values at and around random length boundaries with astral
+             tails, and the literals around a text value include every truncation of it, closed and not closed by U+FFFF / U+10FFFF.
+Findings   : five defects of the unchanged tree (findings/C12-*unchanged-tree.log, findings/C12-replay-*.json), all repaired on
              the library branch: (1) scan(filter, verify_checksums=False) pushed the filter into pq.read_table, whose row-group
              statistics ignore NaN; (2) scan() accepted malformed filters on an empty table and scan_batches() skipped building
-             the expression when every file was pruned.  Open (modelled, C12_api_agree_empty_projection_refuted, excluded from
+             the expression when every file was pruned; (3) on a data file WITHOUT rows scan_batches / iter_records evaluated
+             nothing and returned [] where scan() raised on a filter pyarrow cannot bind (unknown column, literal of the wrong
+             type); (4) a str / bytes given as in / not_in value set or as between argument was iterated / unpacked character by
+             character; (5) the flag of is_null / is_not_null was ignored: ('is_null', False) selected the NULL rows.
+             Open (modelled, C12_api_agree_empty_projection_refuted, excluded from
              the oracle): scan(columns=[]) returns no rows (pa.concat_tables) while the batch APIs yield one {} per row.
+             Reading: a NULL inside an in / not_in value set is dropped (documented contract); for NOT IN that is not the SQL
+             standard's UNKNOWN -- C12_not_in_nulls_dropped / C12_not_in_null_differs_from_sql state the difference exactly.
 Tie        : correspondence of every hand-written model piece with the real code:
                prims      every cexpr constructor evaluated by real pyarrow     vs Model/Filter.v eval3
                parse      filters.parse_filter_dict                              vs parse (uses Gen tables)
@@ -87,8 +101,9 @@ def val_unjson(j):
 
 LEVEL = "proof"
 THEOREMS = ["C12_compile_correct", "C12_compile_total", "C12_conj", "C12_api_agree", "C12_api_sql", "C12_api_sql_sound_bounds", "C12_text_bounds_conservative", "C12_prefix_lower_bound",
-            "C12_prefix_upper_bound_refuted", "C12_typed_evaluates", "C12_refused_raises",
-            "C12_strict", "C12_strict_everywhere", "C12_operator_faithful", "C12_operator_table", "C12_special_keys", "C12_project_after",
+            "C12_prefix_upper_bound_refuted", "C12_typed_evaluates", "C12_refused_raises", "C12_zero_row_file_check_needed",
+            "C12_strict", "C12_strict_value_set", "C12_strict_everywhere", "C12_operator_faithful", "C12_operator_table", "C12_special_keys",
+            "C12_project_after", "C12_not_in_nulls_dropped", "C12_not_in_null_differs_from_sql",
             "C12_api_agree_empty_projection_refuted",
             "C12_manifest_roundtrip", "C12_rewrite_decision", "C12_history_view", "C12_history_files", "C12_history_sql"]
 GEN_FILES = ["GenFilter.v", "GenFilterConst.v", "GenPrune.v", "GenBound.v", "GenManifest.v"]
@@ -99,9 +114,15 @@ REQ_HIST = REQ + ["DS.Model.BoundPrim", "DS.Gen.GenBound", "DS.Model.Bound", "DS
 MANIFEST_ENTRY = {
     "level_text": "C12_compile_correct / C12_conj (the compiled expression is TRUE exactly on the SQL-TRUE rows), C12_api_agree "
                   "(scan verify on/off, scan_batches with any batching, iter_records return the same rows or the same error for "
-                  "every table, layout, projection and filter), C12_api_sql (that answer is project cols (filter sql (concat files)), "
-                  "pruning included), C12_strict / C12_strict_everywhere / C12_operator_faithful / C12_operator_table (malformed "
-                  "filters raise in every API, accepted operators mean what the table says), C12_project_after, and for tables "
+                  "every table, layout -- data files without rows included --, projection and filter), C12_api_sql (that answer is "
+                  "project cols (filter sql (concat files)), pruning included), C12_refused_raises (an expression pyarrow refuses to "
+                  "bind, or refuses on a row, raises in EVERY API; C12_zero_row_file_check_needed: why the batch readers must show "
+                  "a file without rows to pyarrow), C12_strict (the parser fails EXACTLY on the conditions outside the documented "
+                  "language -- unknown / non-string operator, {c: None}, a str as value set or as between argument, the flag "
+                  "False -- and otherwise returns exactly their independent meaning), C12_strict_value_set, C12_strict_everywhere, "
+                  "C12_operator_faithful / C12_operator_table (the regenerated tables ARE the independent reading of the "
+                  "spellings), C12_not_in_nulls_dropped / C12_not_in_null_differs_from_sql (NULLs in a NOT IN value set are "
+                  "dropped: exactly how that differs from the SQL standard), C12_project_after, and for tables "
                   "with a HISTORY C12_history_view / C12_history_files / C12_history_sql (after any sequence of committed "
                   "transactions -- multi-file appends, deletes that keep / rewrite / drop manifests, both at once -- the data "
                   "files a scan finds and the bounds pruning reads are those of the flat list semantics, and every API returns "
@@ -116,8 +137,10 @@ MANIFEST_ENTRY = {
                   "snapshot expiry, rolled-back transactions, garbage collection and re-opening modelled as not touching the "
                   "current manifests (exercised by the oracles and the 'history' correspondence); pyarrow primitive semantics as written in Model/Filter.v eval3 "
                   "(validated by the 'prims' correspondence); oracles X (lossy is_in casts), E (literals pyarrow refuses at "
-                  "evaluation), PA (literals pyarrow refuses when building) are universally quantified; errors are modelled per "
-                  "row (a 0-row file never raises in the model); executor.map order preservation for parallel scans; date vs "
+                  "evaluation), B (expressions pyarrow refuses to bind to the files' schema, rows or no rows), PA (literals pyarrow "
+                  "refuses when building) are universally quantified; the three argument guards of parse_filter_dict are pinned by "
+                  "golden AST and modelled by hand (unpack2, flag_true, text_value_set; bytes value sets are outside the Coq value "
+                  "type: oracle only); executor.map order preservation for parallel scans; date vs "
                   "timestamp comparisons (pyarrow casts, Python refuses) are outside the model and covered by the oracle only",
     "technique": "Coq proof over translator-regenerated filter compiler and manifest kernels (induction over transaction histories) "
                  "+ differential correspondence + independent SQL oracle over random and directed table histories",
@@ -192,6 +215,18 @@ Definition E0 (kinds : list (Z * kind)) (e : cexpr) (r : row) : bool :=
   | IsIn c vals => existsb (mismatch (lookup c kinds)) vals
   | _ => false
   end.
+(* B0: what pyarrow refuses when it BINDS the expression to the table's schema -- rows or no rows: a column the table
+   does not have, a literal / value set of another kind than the column, a list literal *)
+Fixpoint B0 (kinds : list (Z * kind)) (e : cexpr) : bool :=
+  match e with
+  | Cmp _ c (AVal l) => match lookup c kinds with None => true | Some k => mismatch (Some k) l end
+  | Cmp _ _ (AList _) => true
+  | IsIn c vals => match lookup c kinds with None => true | Some k => existsb (mismatch (Some k)) vals end
+  | IsValid c | IsNull c => match lookup c kinds with None => true | Some _ => false end
+  | Not a => B0 kinds a
+  | And a b => B0 kinds a || B0 kinds b
+  | Scalar _ => false
+  end.
 Definition PA0 (a : parg) : bool :=
   match a with
   | AVal _ => true
@@ -235,6 +270,50 @@ LONG_TEXT = ["", "a", "z", _P[:127], _P, _P + "a", _P + "b", _P + "b" * 900, _P[
              _P + "k" * 1100 + "n", _U, _U + "a", _U + "a/b", _U[:128], _U + "z" * 1500, _U + "z" * 5000 + "!"]
 
 
+# Text AT AND AROUND LENGTH BOUNDARIES, closed by characters from every plane.  A stored string statistic that is cut at
+# some length (in characters, UTF-16 units or UTF-8 bytes), rounded up by a sentinel, or compared in another order than
+# the column's (code points = UTF-8 bytes) is wrong only for values that differ from the stored bound right AFTER the cut:
+# a value of L-1 / L / L+1 characters followed by a character above the Basic Multilingual Plane (U+10000, an emoji,
+# U+10FFFF), by the highest BMP characters (U+FFFF, U+FFFD, a surrogate-adjacent U+D7FF / U+E000), by DEL / 'z' / NUL.
+TEXT_BOUNDARIES = [1, 2, 4, 8, 12, 16, 20, 24, 32, 48, 64, 100, 128, 200, 255, 256, 500, 512, 1000, 1024, 2048, 4096]
+TEXT_TAILS = ["\U00010000", "\U0001F600", "\U0010FFFF", "\uffff", "\ufffd", "\ud7ff", "\ue000", "\x7f", "z", "\x00", ""]
+TEXT_FILLS = ["k", "\u00e9", "\U0001F600"]        # 1, 2 and 4 UTF-8 bytes (1, 1 and 2 UTF-16 units) per character
+
+
+def boundary_text(length: int, tail: str, fill: str = "k", more: str = "") -> str:
+    return fill * length + tail + more
+
+
+def boundary_family(rng, n_lengths: int, fills: Optional[List[str]] = None) -> List[str]:
+    """Values around `n_lengths` boundaries (each with L-1, L, L+1 characters before the tail), every tail."""
+    out: List[str] = []
+    for L in rng.sample(TEXT_BOUNDARIES, min(n_lengths, len(TEXT_BOUNDARIES))):
+        for d in (-1, 0, 1):
+            fill = rng.choice(fills or TEXT_FILLS)
+            for tail in TEXT_TAILS:
+                v = boundary_text(max(0, L + d), tail, fill, rng.choice(["", "", "a", "\U00010000"]))
+                if v not in out:
+                    out.append(v)
+    return out
+
+
+def text_around(v: str) -> List[str]:
+    """Literals just above / below a text value and just above / below what a TRUNCATED bound of it would be."""
+    out = [v, v + "a", v + "\x00", v + "\U00010000", v[:-1]]
+    if v:
+        c = ord(v[-1])
+        out += [v[:-1] + chr(c + 1) if c < 0x10FFFF and not 0xD7FF <= c < 0xDFFF else v + "\x00",
+                v[:-1] + chr(c - 1) if c > 0 and not 0xE000 >= c > 0xD800 else v[:-1]]
+    for L in TEXT_BOUNDARIES:
+        if L < len(v):
+            out += [v[:L], v[:L] + "\uffff", v[:L] + "\U0010FFFF", v[:L + 1]]
+    seen: List[str] = []
+    for w in out:
+        if w not in seen:
+            seen.append(w)
+    return seen
+
+
 def neighbours(v: Any) -> List[Any]:
     """Literals just at / below / above a value, of the same kind."""
     if isinstance(v, bool) or v is None:
@@ -244,7 +323,7 @@ def neighbours(v: Any) -> List[Any]:
     if isinstance(v, float):
         return [v] if v != v or v in (float("inf"), float("-inf")) else [v, v - 0.5, v + 0.5]
     if isinstance(v, str):
-        return [v, v + "a", v[:-1], v[:128], v[:128] + "\uffff", v + "\x00"]
+        return text_around(v)
     if isinstance(v, bytes):
         return [v, v + b"a", v[:-1], v + b"\x00"]
     if isinstance(v, dt.datetime):
@@ -292,8 +371,18 @@ def gen_cond(rng, kind: str, cross: float = 0.15, malformed: float = 0.0, dom: O
             return ("pair", ("other", rng.choice([5, None, 1.5, True])), ("val", lit(0)))
         if m < 0.8:
             return ("plain", ("val", None))
-        if m < 0.9:
+        if m < 0.72:
             return ("pair", ("str", "between"), ("tuple", [lit(0) for _ in range(rng.choice([0, 1, 3]))]))
+        if m < 0.8:
+            # a str / bytes where (lo, hi) is expected: "ab" must not be unpacked into 'a', 'b'
+            return ("pair", ("str", rand_case(rng, "between")), ("val", rng.choice(["ab", "az", "", "a", "abc", b"ab", b"\x00\xff", 5])))
+        if m < 0.9:
+            # a str / bytes where a value SET is expected: "ab" must not be read as ['a', 'b'] (nor b"ab" as [97, 98])
+            texts = [v for v in [lit(0) for _ in range(3)] if isinstance(v, (str, bytes))] + ["ab", "", "a", "123", b"ab", b"\x01"]
+            return ("pair", ("str", rand_case(rng, rng.choice(["in", "not_in", "not in", "notin"]))), ("val", rng.choice(texts)))
+        if m < 0.95:
+            # the OPPOSITE flag: ("is_null", False) must not select the NULL rows
+            return ("pair", ("str", rand_case(rng, rng.choice(["is_null", "isnull", "is_not_null", "notnull", "isnotnull"]))), ("val", False))
         return ("pair", ("str", rng.choice(["in", "not_in"])), ("val", rng.choice([5, None, 1.5])))
     r = rng.random()
     if r < 0.12:
@@ -315,7 +404,7 @@ def gen_cond(rng, kind: str, cross: float = 0.15, malformed: float = 0.0, dom: O
 
 def gen_table_case(rng, kinds_pool: List[str], cross: float, malformed: float, max_files: int = 4,
                    long_text: float = 0.0, long_dom: Optional[List[Any]] = None, history: float = 0.0,
-                   max_steps: int = 5) -> Dict[str, Any]:
+                   max_steps: int = 5, zero_rows: float = 0.0) -> Dict[str, Any]:
     """`history`: probability that the table is built by a random HISTORY (harness/lib/c12_hist.py: transactions appending
     several files, deleting some files of a manifest or whole manifests, both at once, expiring snapshots, aborted
     transactions, collections, reloads) instead of one append per file."""
@@ -333,8 +422,10 @@ def gen_table_case(rng, kinds_pool: List[str], cross: float, malformed: float, m
     else:
         nfiles = rng.choice(list(range(0, max_files + 1)) + [1, 2])
     for _ in range(nfiles):
-        rows = gen_rows(rng, cols, kinds, rng.choice([1, 2, 3, 5]), doms)
-        if rng.random() < 0.25:
+        # ... a data file may have NO rows (append_records([]) / append_data([]) commit one): nothing is evaluated row by
+        # row there, yet every API has to give the same answer -- or raise the same way -- as on any other file
+        rows = gen_rows(rng, cols, kinds, 0 if rng.random() < zero_rows else rng.choice([1, 2, 3, 5]), doms)
+        if rows and rng.random() < 0.25:
             rows = [dict(rows[0]) for _ in rows]          # single-valued file (prunable)
         files.append(rows)
     case = {"cols": cols, "kinds": kinds, "files": files, "doms": doms}
@@ -356,11 +447,14 @@ def file_extremes(case: Dict[str, Any], col: str) -> List[Any]:
     return out
 
 
-def gen_filter(rng, case: Dict[str, Any], cross: float, malformed: float, boundary: float = 0.0) -> List[Tuple[str, Tuple]]:
+def gen_filter(rng, case: Dict[str, Any], cross: float, malformed: float, boundary: float = 0.0, unknown: float = 0.0) -> List[Tuple[str, Tuple]]:
     cols, kinds = case["cols"], case["kinds"]
     n = rng.choice([0, 1, 1, 1, 2, 2, 3])
     chosen = rng.sample(range(len(cols)), min(n, len(cols)))
     out = []
+    if unknown and rng.random() < unknown:
+        # a column the table does not have: pyarrow cannot bind the expression -- in every API alike
+        out.append(("nosuch", gen_cond(rng, rng.choice(kinds), 0.0, 0.0)))
     for i in chosen:
         ext = file_extremes(case, cols[i]) if boundary and rng.random() < boundary else []
         if ext:
@@ -685,11 +779,29 @@ def report(ctx, verdict, case, flt, columns, results, source: str) -> None:
         minority = min(groups.values(), key=len)
         if all(n_.startswith("scan(") and "verify=False" in n_ for n_ in minority):
             sub = "scan-verify-off-pushdown"
+        elif any(not f for f in hist.live_files(case)) and {n_.startswith("scan(") for n_ in minority} != {True, False} \
+                and any(r_[0] == "raises" for r_ in results.values()):
+            sub = "zero-row-file"          # scan binds the expression against the file's schema, the batch readers evaluate nothing
         elif all(n_.startswith("scan(") for n_ in minority) and len(minority) == 4:
             sub = "scan-vs-batches"
     elif key == "malformed-accepted":
         acc = [n_ for n_, r_ in results.items() if r_[0] != "raises"]
-        sub = ("scan" if all(n_.startswith("scan(") for n_ in acc) else "other") + ("-empty-table" if not hist.live_files(case) else "-populated-table")
+        try:
+            sqlref.atoms(flt)
+            why = ""
+        except sqlref.Malformed as m_:
+            why = str(m_)
+        except sqlref.Unjudged:
+            why = ""
+        text = why.endswith(("not a str", "not a bytes", "not a bytearray"))
+        if why.startswith("between needs (lo, hi), not a") and text:
+            sub = "between-text-unpacked"
+        elif why.startswith("in / not_in need a list of values, not a") and text:
+            sub = "text-value-set-iterated"
+        elif why.endswith("with the flag False"):
+            sub = "null-test-flag-false"
+        else:
+            sub = ("scan" if all(n_.startswith("scan(") for n_ in acc) else "other") + ("-empty-table" if not hist.live_files(case) else "-populated-table")
     elif key == "wrong-rows":
         got = list(next(iter(results.values()))[1]) if next(iter(results.values()))[0] == "rows" else []
         try:
@@ -720,6 +832,21 @@ CORPUS: List[Dict[str, Any]] = [
     {"name": "{'x': None} accepted by scan() on an empty table",
      "cols": ["x"], "kinds": ["long"], "files": [],
      "filter": [("x", ("plain", ("val", None)))], "columns": None},
+    {"name": "a filter pyarrow cannot bind (string literal on a long column) raises in scan() only, on a data file without rows",
+     "cols": ["a"], "kinds": ["long"], "files": [[]],
+     "filter": [("a", ("plain", ("val", "x")))], "columns": None},
+    {"name": "a filter on a column the table does not have raises in scan() only, on a data file without rows",
+     "cols": ["a"], "kinds": ["long"], "files": [[]],
+     "filter": [("nosuch", ("plain", ("val", 1)))], "columns": None},
+    {"name": "a string value set is read as the set of its characters",
+     "cols": ["s", "k"], "kinds": ["string", "long"], "files": [[{"s": "q", "k": 1}, {"s": "qb", "k": 2}]],
+     "filter": [("s", ("pair", ("str", "in"), ("val", "qb")))], "columns": None},
+    {"name": "a string between argument is unpacked into its characters",
+     "cols": ["s", "k"], "kinds": ["string", "long"], "files": [[{"s": "q", "k": 1}, {"s": "az", "k": 2}]],
+     "filter": [("s", ("pair", ("str", "between"), ("val", "az")))], "columns": None},
+    {"name": "('is_null', False) selects the NULL rows",
+     "cols": ["s", "k"], "kinds": ["string", "long"], "files": [[{"s": "q", "k": 1}, {"s": None, "k": 2}]],
+     "filter": [("s", ("pair", ("str", "is_null"), ("val", False)))], "columns": None},
     {"name": "heterogeneous IN list raises in scan() only when every file is pruned",
      "cols": ["x", "k"], "kinds": ["long", "long"], "files": [[{"x": 1, "k": 1}, {"x": 2, "k": 2}]],
      "filter": [("x", ("pair", ("str", "in"), ("list", [1, "a"]))), ("k", ("pair", ("str", ">"), ("val", 100)))], "columns": None},
@@ -754,6 +881,10 @@ MALFORMED: List[Tuple[str, Tuple]] = (
     + [("non-string operator", ("pair", ("other", o), ("val", 1))) for o in (5, None, 1.5, True)]
     + [("None as value", ("plain", ("val", None)))]
     + [("between arity", ("pair", ("str", "between"), a)) for a in (("tuple", []), ("tuple", [1]), ("tuple", [1, 2, 3]), ("val", 5), ("val", None))]
+    + [("between text", ("pair", ("str", "Between"), ("val", a))) for a in ("13", "", "abc", b"\x00\x09")]
+    + [("text value set", ("pair", ("str", op), ("val", a))) for op in ("in", "NOT_IN") for a in ("13", "", b"\x01\x03")]
+    + [("scalar value set", ("pair", ("str", "in"), ("val", a))) for a in (1, None)]
+    + [("null test with the flag False", ("pair", ("str", op), ("val", False))) for op in ("is_null", "IsNotNull")]
 )
 
 
@@ -762,6 +893,8 @@ def oracle_malformed(ctx) -> None:
     tables = {
         "empty": {"cols": ["x", "k"], "kinds": ["long", "long"], "files": []},
         "populated": {"cols": ["x", "k"], "kinds": ["long", "long"], "files": [[{"x": 1, "k": 1}, {"x": None, "k": 2}], [{"x": 3, "k": None}]]},
+        "zero-row-file": {"cols": ["x", "k"], "kinds": ["long", "long"], "files": [[]]},
+        "text": {"cols": ["x", "k"], "kinds": ["string", "long"], "files": [[{"x": "1", "k": 1}, {"x": None, "k": 2}], [], [{"x": "3", "k": None}, {"x": "13", "k": 4}]]},
     }
     conds = MALFORMED if ctx.tier == "thorough" else MALFORMED[:6] + MALFORMED[len(UNKNOWN_OPS):]
     jobs = []
@@ -862,8 +995,8 @@ def oracle_extremes(ctx) -> None:
         case = {"cols": ["c0", "c1"], "kinds": [kind, "long"], "files": files}
         ext = file_extremes(case, "c0")
         flts = extreme_filters("c0", ext, "c1")
-        if ctx.tier == "quick" and label != "long text with shared prefixes":
-            flts = ctx.rng.sample(flts, min(len(flts), 40))
+        if ctx.tier == "quick":
+            flts = ctx.rng.sample(flts, min(len(flts), 160 if label == "long text with shared prefixes" else 40))
         reqs = []
         for k, flt in enumerate(flts):
             columns = None if k % 3 else ["c1"]
@@ -873,6 +1006,42 @@ def oracle_extremes(ctx) -> None:
         for a in range(0, len(reqs), step):
             jobs.append((case, reqs[a:a + step], f"literals at the file extremes of a {label} column"))
     ctx.stats["extreme_cases"] = judge_all(ctx, jobs, run_tables(ctx, jobs), "extremes")
+
+
+def oracle_textbounds(ctx) -> None:
+    """Directed: per length boundary L (1 ... 4096 characters) one table whose string column holds values of L-1 / L / L+1
+    characters closed by a character of every plane (U+10000, an emoji, U+10FFFF, U+FFFF, U+FFFD, DEL, 'z', NUL, nothing),
+    filled with 1-, 2- and 4-byte characters -- ONE value per data file (so that every value is some file's stored minimum
+    and maximum), all files appended by one transaction (one manifest).  Every value is looked up with == and with one
+    more operator (>=, <=, in, between, > the value without its last character) through all API variants: a stored bound
+    that is cut, rounded or closed by a sentinel which some value exceeds prunes the file that holds the value."""
+    rng = ctx.rng
+    P = lambda op, arg: ("pair", ("str", op), arg)
+    jobs = []
+    nvals = 0
+    for L in TEXT_BOUNDARIES:
+        vals: List[str] = []
+        for d in (-1, 0, 1):
+            tails = TEXT_TAILS if (d == 0 or ctx.tier == "thorough") else rng.sample(TEXT_TAILS[:3], 1) + rng.sample(TEXT_TAILS[3:], 2)
+            fill = "k" if d == 0 else rng.choice(TEXT_FILLS)
+            for tail in tails:
+                v = boundary_text(max(0, L + d), tail, fill, rng.choice(["", "", "b"]))
+                if v not in vals:
+                    vals.append(v)
+        rng.shuffle(vals)
+        files = [[{"c0": v, "c1": i}] + ([{"c0": None, "c1": 1000 + i}] if i % 4 == 0 else []) for i, v in enumerate(vals)]
+        case = {"cols": ["c0", "c1"], "kinds": ["string", "long"], "files": files, "history": [["tx", [["append", i] for i in range(len(files))]]]}
+        reqs = []
+        for i, v in enumerate(vals):
+            second = [P(">=", ("val", v)), P("<=", ("val", v)), P("in", ("list", [v, None])), P("between", ("tuple", [v, v])),
+                      P(">", ("val", v[:-1])), P("not_in", ("list", [w for w in vals if w != v][:40]))][i % 6]
+            for k, cond in enumerate((P("==", ("val", v)), second)):
+                flt = [("c0", cond)]
+                reqs.append((flt, None if (i + k) % 3 else ["c1"], sqlref.filter_py(flt)))
+        nvals += len(vals)
+        jobs.append((case, reqs, f"text values at and around {L} characters, one value per data file"))
+    ctx.stats["textbound_cases"] = judge_all(ctx, jobs, run_tables(ctx, jobs), "textbounds")
+    ctx.stats["textbound_values"] = nvals
 
 
 def add_shape(acc: Dict[str, int], case: Dict[str, Any]) -> None:
@@ -893,7 +1062,7 @@ def oracle_rewrites(ctx) -> None:
     a fresh handle -- filtered with literals at and around every live file's minimum and maximum, the NULL / empty-set /
     alias edge cases, through all API variants.  The expected rows are those of the files that are live by the list
     semantics of harness/lib/c12_hist.py."""
-    families: List[Tuple[str, str, List[Any]]] = [("string", "long text with shared prefixes", LONG_TEXT)]
+    families: List[Tuple[str, str, List[Any]]] = [("string", "long text with shared prefixes", LONG_TEXT + boundary_family(ctx.rng, 1, ["k"]))]
     for kind in MODEL_KINDS + NOBOUNDS_KINDS:
         families.append((kind, kind, DOMAIN[kind]))
     jobs = []
@@ -941,20 +1110,25 @@ def oracle_e2e(ctx) -> None:
     ntables = 120 if ctx.tier == "quick" else 900
     nfilters = 10 if ctx.tier == "quick" else 14
     stats = {"all_raise": 0, "empty_result": 0, "nonempty_result": 0, "projected": 0, "empty_tables": 0, "tables_with_long_text": 0,
+             "tables_with_a_zero_row_file": 0,
              "filters_with_literal_at_a_file_extreme": 0}
     opmix: Dict[str, int] = {}
     shapes: Dict[str, int] = {}
     jobs = []
     for t in range(ntables):
-        case = gen_table_case(rng, E2E_KINDS, cross=0.15, malformed=0.1, long_text=0.25, history=0.5)
+        # long text: the fixed family plus values at and around a few (random) length boundaries, astral tails included
+        long_dom = LONG_TEXT + boundary_family(rng, 2)
+        case = gen_table_case(rng, E2E_KINDS, cross=0.15, malformed=0.1, long_text=0.25, long_dom=long_dom, history=0.5, zero_rows=0.12)
         add_shape(shapes, case)
         if not hist.live_files(case):
             stats["empty_tables"] += 1
-        if any(d is LONG_TEXT for d in case["doms"]):
+        if any(d is long_dom for d in case["doms"]):
             stats["tables_with_long_text"] += 1
+        if any(not f for f in hist.live_files(case)):
+            stats["tables_with_a_zero_row_file"] += 1
         reqs = []
         for _ in range(nfilters):
-            flt = gen_filter(rng, case, cross=0.15, malformed=0.08, boundary=0.35)
+            flt = gen_filter(rng, case, cross=0.15, malformed=0.08, boundary=0.35, unknown=0.04)
             columns = gen_columns(rng, case)
             fpy = sqlref.filter_py(flt) if (flt or rng.random() < 0.5) else None
             reqs.append((flt, columns, fpy))
@@ -1272,7 +1446,11 @@ def gen_model_literal(rng, kind: str, cross: float, dom: Optional[List[Any]] = N
 def gen_model_cond(rng, kind: str, cross: float, malformed: float, dom: Optional[List[Any]] = None) -> Tuple:
     """Like gen_cond, restricted to what the model with X0/E0/PA0 decides exactly."""
     if rng.random() < malformed:
-        return gen_cond(rng, kind, 0.0, 1.0)
+        for _ in range(20):
+            cd = gen_cond(rng, kind, 0.0, 1.0)
+            if not isinstance(cd[-1][1], (bytes, bytearray)):       # the Coq `value` type has no bytes kind
+                return cd
+        return ("plain", ("val", None))
     r = rng.random()
     lit = lambda: gen_model_literal(rng, kind, cross, dom)
     if r < 0.1:
@@ -1332,7 +1510,7 @@ def corr_build(ctx) -> None:
     for _ in range(n):
         kinds = [rng.choice(KINDS), rng.choice(KINDS)]
         cols = ["c0", "c1"]
-        rows = gen_rows(rng, cols, kinds, rng.choice([1, 2, 4, 6]))
+        rows = gen_rows(rng, cols, kinds, rng.choice([0, 1, 2, 4, 6]))      # 0: Table.filter on a table WITHOUT rows (binding only)
         flt = []
         for i in rng.sample([0, 1], rng.choice([1, 1, 2])):
             flt.append((cols[i], gen_model_cond(rng, kinds[i], 0.12, 0.0)))
@@ -1352,7 +1530,7 @@ def corr_build(ctx) -> None:
             ps.append(f"{{| pcol := {colnum[column]}; pop := {opname}; pval := {arg} |}}")
         mrows = "[" + "; ".join(row_coq(dict(r, i=k), colnum) for k, r in enumerate(rows)) + "]"
         kinds_coq = f"[(0, {KIND_COQ[kinds[0]]}); (1, {KIND_COQ[kinds[1]]})]"
-        exprs.append(f"code_of (bind (build PA0 [{'; '.join(ps)}]) (fun ce => bind (apply_filter X0 (E0 {kinds_coq}) ce {mrows}) (fun out => Ok (map idx out)))) []")
+        exprs.append(f"code_of (bind (build PA0 [{'; '.join(ps)}]) (fun ce => bind (apply_filter X0 (E0 {kinds_coq}) (B0 {kinds_coq}) ce {mrows}) (fun out => Ok (map idx out)))) []")
         impl.append(got)
         descs.append({"kinds": kinds, "rows": [{k: val_json(v) for k, v in r.items()} for r in rows], "filter": repr(sqlref.filter_py(flt))})
     model = coqbuild.coq_eval(REQ, exprs, preamble=PREAMBLE)
@@ -1431,13 +1609,15 @@ def corr_pipelines(ctx) -> None:
         # ... and some tables are built by a HISTORY (multi-file transactions, partial deletes that rewrite manifests, mixed
         # transactions, expiry): the model scans the LIVE files of the list semantics with their exact bounds
         # (C12_history_sql), so a bound that a manifest rewrite changed shows as a pruning disagreement too
-        case = gen_table_case(rng, KINDS, 0.0, 0.0, max_files=3, long_text=0.2, long_dom=MODEL_LONG_TEXT, history=0.35, max_steps=4)
+        case = gen_table_case(rng, KINDS, 0.0, 0.0, max_files=3, long_text=0.2, long_dom=MODEL_LONG_TEXT, history=0.35, max_steps=4, zero_rows=0.2)
         if case.get("history") is not None:
             with_history += 1
         reqs = []
         for _ in range(nfilters):
             flt = []
             n = rng.choice([0, 1, 1, 2, 2, 3])
+            if rng.random() < 0.05:
+                flt.append(("zz", gen_model_cond(rng, "long", 0.0, 0.0)))      # a column the table does not have (B0 refuses)
             for i in rng.sample(range(len(case["cols"])), min(n, len(case["cols"]))):
                 ext = file_extremes(case, case["cols"][i]) if col_dom(case, i) is MODEL_LONG_TEXT and rng.random() < 0.6 else []
                 if ext:
@@ -1478,7 +1658,7 @@ def corr_pipelines(ctx) -> None:
         kinds_coq = "[" + "; ".join(f"({colnum[c]}, {KIND_COQ[k]})" for c, k in zip(cols, kinds)) + "]"
         for (flt, columns), (_ph, gots) in zip(reqs, val):
             cols_coq = "None" if columns is None else "(Some [" + "; ".join(str(colnum[c]) for c in columns) + "])"
-            common = f"X0 (E0 {kinds_coq}) PA0 {sch} {ids} (fun f => file_bounds {ids} (frows f))"
+            common = f"X0 (E0 {kinds_coq}) (B0 {kinds_coq}) PA0 {sch} {ids} (fun f => file_bounds {ids} (frows f))"
             fl = filter_coq(flt, colnum)
             model_terms = {
                 "scan": f"code_of (scan_table {common} true {cols_coq} {fl} {files_coq}) []",
@@ -1622,13 +1802,14 @@ def run(ctx) -> None:
         "parse_filter_dict / _parse_op / to_pyarrow_compute_expression pinned by golden AST)",
         "pyarrow primitive semantics as written in Model/Filter.v eval3 / select / select_lenient (validated by the 'prims', 'build' and "
         "'pipelines' correspondences against the installed pyarrow)",
-        "oracles X, E, PA are universally quantified in every theorem (nothing assumed about lossy is_in casts, refused literals)",
+        "oracles X, E, B, PA are universally quantified in every theorem (nothing assumed about lossy is_in casts, refused literals)",
         "translator/gen_manifest.py (bound expressions of create_manifest_file / read_manifest_file, survivor test and keep / rewrite / "
         "drop decision of _commit_file_ops; loop / call structure around them checked, fail-closed), translator/gen_bound.py",
         "harness: harness/props/c12.py, harness/lib/c12_hist.py (histories and their list semantics), harness/lib/sqlref.py (independent SQL evaluator), harness/lib/coqbuild.py",
     ]
     ctx.assumptions += [
-        "errors are modelled per row: a file or batch with 0 rows never raises in the model (the library cannot write 0-row files)",
+        "pyarrow refuses an expression either when binding it to the table's schema (oracle B: independent of the rows, also on a table without rows) "
+        "or on a row (oracle E); all files of a table share the schema, so B does not depend on the file",
         "scan(parallel=N) is executor.map over the same per-file read (order preserving); covered by the oracle and the pipelines correspondence, not by a separate model definition",
         "all files of a table share the parquet schema `sch` (C11); projections are judged against it",
         "date vs timestamp comparisons (pyarrow casts, Python refuses) and inexact literals on float32 columns are outside the model; the oracle demands cross-API agreement there",
@@ -1653,7 +1834,7 @@ def run(ctx) -> None:
     timed("proofs", lambda c: (c.proofs(THEOREMS, gen_files=GEN_FILES), c.allow_axioms([])))
     # implementation-only oracles always run: they are the search for a concrete failing input
     for name, fn in (("corpus", oracle_corpus), ("malformed", oracle_malformed), ("edges", oracle_edges), ("extremes", oracle_extremes),
-                     ("rewrites", oracle_rewrites), ("e2e", oracle_e2e)):
+                     ("textbounds", oracle_textbounds), ("rewrites", oracle_rewrites), ("e2e", oracle_e2e)):
         timed("oracle_" + name, fn)
     try:
         for name, fn in (("prims", corr_prims), ("parse", corr_parse), ("build", corr_build), ("history", corr_history),
